@@ -135,3 +135,16 @@ def gen_par(seed, shard, n):
         except Exception as ex:
             ev.update(u1=_unit(0.0, 0.0), oc=_oc(ex))
         yield ev
+        # the same body through the ecliptical form of the correction (Meeus 40.6-40.8)
+        lon, blat = rng.uniform(0, 360), rng.choice([rng.uniform(-89, 89), rng.uniform(-6, 6), rng.uniform(-6, 6), 0.0])
+        semi = rng.uniform(0.001, 0.3)
+        eps, st = rng.uniform(22.0, 24.5), rng.uniform(0, 360)
+        ev = {"k": "pare", "site": "pare", "lonf": lon, "blatf": blat, "latf": lat, "distf": dist, "stf": st, "hf": h, "dist": fx(dist),
+              "u0": _unit(lon, blat), "semi": fx(math.sin(math.radians(semi)))}
+        try:
+            tl, tb, ts = Earth.parallax_ecliptical(Angle(lon), Angle(blat), Angle(semi), Angle(lat), Angle(eps), Angle(st), dist, h)
+            ev.update(u1=_unit(float(tl), float(tb)), oc="ok", tlon=float(tl), tlat=float(tb), tsemi=fx(math.sin(math.radians(float(ts)))),
+                      latok=1 if -90.0 <= float(tb) <= 90.0 else 0)
+        except Exception as ex:
+            ev.update(u1=_unit(0.0, 0.0), oc=_oc(ex), tsemi=fx(0.0), latok=0)
+        yield ev
